@@ -50,9 +50,29 @@ CATALOGUE = [
     ("SortFieldsCustom(cs)", lambda: mws.SortFieldsCustomMiddleware(order=("title", "Title", "year"), case_sensitive=True, allow_inplace_modification=False)),
     ("SortFieldsCustom(ci,list)", lambda: mws.SortFieldsCustomMiddleware(order=["year", "author"], case_sensitive=False, allow_inplace_modification=False)),
     ("SortFieldsCustom(cs,list)", lambda: mws.SortFieldsCustomMiddleware(order=["year", "author"], case_sensitive=True, allow_inplace_modification=False)),
+    # name middlewares restricted to one field each: a library may hold split names in one field and plain lists in another
+    ("SplitNameParts(author)", lambda: mws.SplitNameParts(allow_inplace_modification=False, name_fields=("author",))),
+    ("SplitNameParts(editor)", lambda: mws.SplitNameParts(allow_inplace_modification=False, name_fields=("editor",))),
+    ("SeparateCoAuthors(editor)", lambda: mws.SeparateCoAuthors(allow_inplace_modification=False, name_fields=("editor",))),
+    ("MergeNameParts(last;author)", lambda: mws.MergeNameParts(style="last", allow_inplace_modification=False, name_fields=("author",))),
+    # converters that fail on some values (custom encoder= / decoder=): error blocks are built in copy mode too
+    ("LatexEncoding(flaky)", lambda: mws.LatexEncodingMiddleware(encoder=Flaky(), allow_inplace_modification=False)),
+    ("LatexDecoding(flaky)", lambda: mws.LatexDecodingMiddleware(decoder=Flaky(), allow_inplace_modification=False)),
 ]
 
-STACKS = ["default", "none", "names", "sep", "month", "normkeys"]
+
+class Flaky:
+    """A converter that refuses every value whose length is a multiple of 3 (deterministic)."""
+
+    def unicode_to_latex(self, s):
+        if len(s) % 3 == 0:
+            raise ValueError("flaky converter refuses %d characters" % len(s))
+        return s.upper()
+
+    latex_to_text = unicode_to_latex
+
+
+STACKS = ["default", "none", "names", "sep", "month", "normkeys", "sep", "split_author"]
 
 
 def generate(rng, tier, prop):
@@ -73,6 +93,12 @@ def generate(rng, tier, prop):
             ops.append({"op": "parse", "doc": d, "stack": rng.choice(STACKS)})
     n = rng.randint(2, 14 if tier == "quick" else 24)
     focus = rng.sample(range(len(CATALOGUE)), rng.randint(1, 5))   # swarm: a few instances get most of the traffic
+    names = {nm: i for i, (nm, _) in enumerate(CATALOGUE)}
+    if rng.random() < 0.08:
+        # a library whose author field is already split while its editor field is still a plain list,
+        # handed to the name middlewares that work on the other field
+        ops.append({"op": "parse", "doc": rng.randrange(ndocs), "stack": "split_author"})
+        focus = [names["SplitNameParts(editor)"], names["SplitNameParts(author)"], names["MergeNameParts(last;author)"], names["SeparateCoAuthors(editor)"]]
     p_write = rng.choice([0.2, 0.4])
     for _ in range(n):
         r = rng.random()
@@ -100,6 +126,8 @@ def _stack(name):
         return {"append_middleware": [mws.SeparateCoAuthors()]}
     if name == "month":
         return {"append_middleware": [mws.MonthIntMiddleware()]}
+    if name == "split_author":
+        return {"append_middleware": [mws.SeparateCoAuthors(), mws.SplitNameParts(name_fields=("author",))]}
     if name == "normkeys":
         return {"append_middleware": [mws.NormalizeFieldKeys()]}
     raise ValueError(name)
